@@ -378,7 +378,9 @@ def validate_all(work, tracefiles, invariants, chunks=4, module="TraceProps.tla"
         r = validate_trace(work, outs[i], invariants, module=module, name=nm)
         r["file"] = outs[i]
         return r
-    with concurrent.futures.ThreadPoolExecutor(max_workers=chunks) as ex:
+    # (at most 6 validations at a time: a TLC that deserialises a large chunk takes gigabytes, and twelve of them at once were killed
+    #  for memory in a 16 GB control group)
+    with concurrent.futures.ThreadPoolExecutor(max_workers=min(chunks, 6)) as ex:
         results = list(ex.map(one, range(chunks)))
     for r in results:
         if r["violated"]:
